@@ -36,7 +36,7 @@ import os
 import shutil
 import tempfile
 
-from common import err_kind, hexs, lst
+from common import err_kind, frac_token, hexs, lst
 
 GRID = (-2, 0, 2, 4)
 CAPS = (None, -3, -2, -1, 0, 1, 2, 3, 4, 5)
@@ -51,25 +51,39 @@ class Case(tuple):
 
 
 def mkcase(intf, workers, moves, cap=None, lm1="A", quantis=None, ee=None,
-           engines=(("engine", 1, None, 7), ("engine0", 1, None, 7)), seed=None, acc=None):
+           engines=(("engine", 1, None, 7), ("engine0", 1, None, 7)), seed=None, acc=None, opts=()):
+    """opts: options check_config does not look at (steps, maxlength, n_jumps, screen, pattern, delete_old) and the
+    flag nomodel (engine names colliding with non-engine sections, outside the model's assumption)"""
     return Case((tuple(intf), workers, tuple(moves), cap, lm1, quantis,
-                 None if ee is None else tuple(tuple(x) for x in ee), tuple(engines), seed, acc))
+                 None if ee is None else tuple(tuple(x) for x in ee), tuple(engines), seed, acc,
+                 tuple(sorted(dict(opts).items()))))
+
+
+def opts_of(c):
+    return dict(c[10]) if len(c) > 10 else {}
+
+
+CLASS_NAMES = {0: "gromacs", 1: "turtlemd", 2: "cp2k", 3: "lammps", 4: "ase"}
+NON_ENGINE_SECTIONS = ("runner", "simulation", "output", "current", "orderparameter")
 
 
 def case_obj(c):
     return {"interfaces": list(c[0]), "workers": c[1], "moves_wf": list(c[2]), "cap": c[3], "lm1": c[4],
             "quantis": c[5], "ensemble_engines": None if c[6] is None else [list(x) for x in c[6]],
-            "engines": [list(e) for e in c[7]], "seed": c[8], "accept_all": c[9]}
+            "engines": [list(e) for e in c[7]], "seed": c[8], "accept_all": c[9], "opts": opts_of(c)}
 
 
 def case_from_obj(o):
     return mkcase(o["interfaces"], o["workers"], o["moves_wf"], o["cap"], o["lm1"], o["quantis"],
-                  o["ensemble_engines"], [tuple(e) for e in o["engines"]], o["seed"], o["accept_all"])
+                  o["ensemble_engines"], [tuple(e) for e in o["engines"]], o["seed"], o["accept_all"],
+                  tuple((o.get("opts") or {}).items()))
 
 
 def to_dict(c, data_dir):
-    intf, workers, moves, cap, lm1, quantis, ee, engines, seed, acc = c
-    tis = {"maxlength": 100, "allowmaxlength": False, "zero_momentum": False, "n_jumps": 2}
+    intf, workers, moves, cap, lm1, quantis, ee, engines, seed, acc = c[:10]
+    o = opts_of(c)
+    tis = {"maxlength": o.get("maxlength", 100), "allowmaxlength": False, "zero_momentum": False,
+           "n_jumps": o.get("n_jumps", 2)}
     if cap is not None:
         tis["interface_cap"] = float(cap)
     if lm1 == "F":
@@ -80,16 +94,18 @@ def to_dict(c, data_dir):
         tis["quantis"] = bool(quantis)
     if acc is not None:
         tis["accept_all"] = bool(acc)
-    sim = {"interfaces": [float(x) for x in intf], "steps": 10, "load_dir": "load",
+    sim = {"interfaces": [float(x) for x in intf], "steps": o.get("steps", 10), "load_dir": "load",
            "shooting_moves": ["wf" if m else "sh" for m in moves], "tis_set": tis}
     if ee is not None:
         sim["ensemble_engines"] = [list(x) for x in ee]
     if seed is not None:
         sim["seed"] = seed
     d = {"runner": {"workers": workers}, "simulation": sim,
-         "output": {"data_dir": data_dir, "screen": 0, "pattern": False, "delete_old": False}}
+         "output": {"data_dir": data_dir, "screen": o.get("screen", 0), "pattern": bool(o.get("pattern", False)),
+                    "delete_old": bool(o.get("delete_old", False))},
+         "orderparameter": {"class": "Distance", "index": [0, 1], "periodic": True}}
     for (name, cls, ip, other) in engines:
-        t = {"class": "gromacs" if cls == 0 else f"cls{cls}", "timestep": float(other)}
+        t = {"class": CLASS_NAMES.get(cls, f"cls{cls}"), "timestep": float(other)}
         if ip is not None:
             t["input_path"] = f"path{ip}"
         d[name] = t
@@ -97,7 +113,7 @@ def to_dict(c, data_dir):
 
 
 def to_line(op, c):
-    intf, workers, moves, cap, lm1, quantis, ee, engines, seed, acc = c
+    intf, workers, moves, cap, lm1, quantis, ee, engines, seed, acc = c[:10]
     o = lambda v: "-" if v is None else str(int(v))  # noqa: E731
     if ee is None:
         ees = "-"
@@ -161,6 +177,90 @@ def py_valid(cfg):
     return bad
 
 
+DEFAULT_KEYS = (("simulation", "ensemble_engines"), ("simulation", "seed"), ("simulation", "tis_set", "quantis"),
+                ("simulation", "tis_set", "lambda_minus_one"), ("simulation", "tis_set", "accept_all"))
+MAY_APPEAR = (("current",), ("output", "data_file"), ("output", "pattern_file"))
+
+
+def settings_changed(d_in, cfg, restart=False):
+    """what setup_config may do to the parsed file: fill in the five defaults where the key is absent (an empty
+    ensemble_engines counts as absent), create [current] / set current.restarted_from, set output.data_file and
+    output.pattern_file.  Returns the paths of everything else that differs."""
+    bad = []
+
+    def walk(a, b, path):
+        if path in MAY_APPEAR or (restart and path == ("current",)):
+            return
+        if isinstance(a, dict) and isinstance(b, dict):
+            for k in sorted(set(a) | set(b), key=str):
+                pk = path + (k,)
+                if k not in a:
+                    if pk not in DEFAULT_KEYS and pk not in MAY_APPEAR:
+                        bad.append(".".join(map(str, pk)) + " added")
+                elif k not in b:
+                    bad.append(".".join(map(str, pk)) + " removed")
+                else:
+                    walk(a[k], b[k], pk)
+        elif a != b or type(a) is not type(b):
+            if path == ("simulation", "ensemble_engines") and not a:
+                return
+            bad.append(".".join(map(str, path)) + f" changed {a!r} -> {b!r}")
+    try:
+        walk(d_in, cfg, ())
+        if restart:
+            ci, co = dict(d_in.get("current", {})), dict(cfg.get("current", {}))
+            ci.pop("restarted_from", None)
+            co.pop("restarted_from", None)
+            if ci != co:
+                bad.append("current changed (other than restarted_from)")
+    except Exception as e:  # noqa: BLE001
+        bad.append("uncomparable: " + err_kind(e))
+    return bad
+
+
+def ensembles_spec_violations(cfg, st):
+    """direct statement of what initiate_ensembles must create: [0-] = (λ₋₁ or -inf, middle, λ0), [0+] = (λ0, λ0, λN),
+    [k+] = (λ0, λ_k, λN); mc_move = shooting_moves[i]; one ensemble per interface"""
+    sim = cfg["simulation"]
+    intf = sim["interfaces"]
+    lm1 = sim["tis_set"].get("lambda_minus_one", False)
+    want = [(lm1, (lm1 + intf[0]) / 2, intf[0]) if lm1 is not False else (float("-inf"), intf[0], intf[0]),
+            (intf[0], intf[0], intf[-1])]
+    want += [(intf[0], m, intf[-1]) for m in intf[1:-1]]
+    bad = []
+    ens = st.ensembles
+    if sorted(ens.keys()) != list(range(len(intf))):
+        bad.append(f"ensemble keys {sorted(ens.keys())} for {len(intf)} interfaces")
+        return bad
+    for i, w in enumerate(want):
+        if tuple(float(x) for x in ens[i]["interfaces"]) != tuple(float(x) for x in w):
+            bad.append(f"ensemble {i} interfaces {ens[i]['interfaces']} ≠ {w}")
+        if ens[i]["mc_move"] != sim["shooting_moves"][i]:
+            bad.append(f"ensemble {i} mc_move {ens[i]['mc_move']}")
+        if ens[i]["tis_set"] != sim["tis_set"]:
+            bad.append(f"ensemble {i} tis_set differs from the configuration's")
+    return bad
+
+
+def show_ensembles(st):
+    """canonical form of st.ensembles, as the driver's `init` op prints Infretis.Config.initEnsembles"""
+    from fractions import Fraction
+    out = []
+    for i in sorted(st.ensembles):
+        e = st.ensembles[i]
+        a, b, r = e["interfaces"]
+        f = lambda x: "-inf" if x == float("-inf") else frac_token(Fraction(x))  # noqa: E731
+        sc = e["start_cond"]
+        sc = "".join(sc) if isinstance(sc, list) else sc
+        out.append(f"{f(a)},{f(b)},{f(r)},{1 if e['mc_move'] == 'wf' else 0},{sc}")
+    return " ".join([str(len(out))] + out)
+
+
+def state_snapshot(st):
+    return (canon(copy.deepcopy(st.config)), show_ensembles(st), st.state.tolist(),
+            [getattr(t, "path_number", None) for t in st._trajs], st._locks.tolist())
+
+
 def py_normalised(d):
     """independent statement of the defaults (only to judge rejected configurations)"""
     d = copy.deepcopy(d)
@@ -207,14 +307,35 @@ class Real:
             self.clean()
         if cfg is None:
             return "none", None
-        return "ok " + show_norm(cfg), cfg
+        try:
+            return "ok " + show_norm(cfg), cfg
+        except Exception as e:  # noqa: BLE001  (a changed setup_config may return anything)
+            return "malformed-config:" + err_kind(e), None
 
     def make_base_restart(self):
+        try:
+            return self._make_base_restart()
+        except Exception as e:  # noqa: BLE001
+            if type(e).__name__ == "Timeout":
+                raise
+            if getattr(self, "base_restart", None) is None:
+                self.base_restart = {"current": {"traj_num": 3, "cstep": 0, "active": [0, 1, 2], "locked": [],
+                                                 "size": 3, "frac": {}}}
+            self.restart_data = os.path.join(self.tmp, "restart_data.txt")
+            open(self.restart_data, "a").close()
+            try:
+                store_paths(initial_paths(to_dict(self.base_case, self.tmp)))
+            except Exception:  # noqa: BLE001
+                pass
+            return ("base-restart", err_kind(e))
+
+    def _make_base_restart(self):
         """let the library write a restart.toml: fresh setup_config of a valid input, REPEX_state,
         initiate_ensembles, load_paths, write_toml; keep its text/dict, its stored paths and a data file"""
         import tomli
         c = mkcase((0, 2, 4), 1, (0, 0, 1), cap=3)
         self.base_case = c
+        self.base_restart = None
         problem = None
         code, cfg = self.setup(to_dict(c, self.tmp))
         self.base_restart = None
@@ -256,9 +377,12 @@ class Real:
             return err_kind(e), None
         if cfg is None:
             return "none", None
-        if "restarted_from" not in cfg["current"]:
-            return "not-the-restart-branch", None
-        return "ok " + show_norm(cfg), cfg
+        try:
+            if "restarted_from" not in cfg["current"]:
+                return "not-the-restart-branch", None
+            return "ok " + show_norm(cfg), cfg
+        except Exception as e:  # noqa: BLE001
+            return "malformed-config:" + err_kind(e), None
 
     def setup_internal(self, cfg):
         """the real setup_internal; only the creation of MD engines / order parameters (def_globals) and the log
@@ -273,11 +397,18 @@ class Real:
             S.def_globals, S.setup_logger = old
 
     def check(self, d):
+        """check_config on a copy of the raw dict → (outcome, True iff the dict was left unmodified)"""
+        arg = copy.deepcopy(d)
         try:
-            self.S.check_config(copy.deepcopy(d))
-            return "ok"
+            self.S.check_config(arg)
+            out = "ok"
         except Exception as e:  # noqa: BLE001
-            return err_kind(e)
+            out = err_kind(e)
+        try:
+            pure = arg == d
+        except Exception:  # noqa: BLE001
+            pure = False
+        return out, pure
 
 
 def mkpath(ops, pnum):
@@ -460,31 +591,44 @@ def first_picks(st, cfg):
     base = {"mc_moves": st.mc_moves, "interfaces": st.interfaces, "cap": st.cap}
     picks = 0
     seen_ens = set()
+    sim = cfg["simulation"]
+    # one job per worker, but never more jobs than steps left
+    expected = max(0, min(cfg["runner"]["workers"], sim["steps"] - cfg["current"]["cstep"]))
     while st.initiate():
+        if picks > expected + 2:
+            return "initiate-does-not-terminate"
         md = st.prep_md_items(copy.deepcopy(base))
         picks += 1
         for e in md["ens_nums"]:
             if e in seen_ens:
                 return "ensemble-picked-twice"
             seen_ens.add(e)
-    if picks != max(cfg["runner"]["workers"], 0):
-        return f"picks={picks}"
+    if picks != expected:
+        return f"picks={picks}-expected={expected}"
     return None
 
 
 def restart_roundtrip(real, st):
     """store the live paths, write restart.toml with the real writer, read it back with the real setup_config
     (restart branch), and initialise again through the real setup_internal up to the first picks"""
-    store_paths([st._trajs[i] for i in range(st.n - 1)])
-    st.write_toml()
-    before = copy.deepcopy(st.config)
+    try:
+        store_paths([st._trajs[i] for i in range(st.n - 1)])
+        st.write_toml()
+        before = copy.deepcopy(st.config)
+    except Exception as e:  # noqa: BLE001
+        if type(e).__name__ == "Timeout":
+            raise
+        return "write_toml:" + err_kind(e), None, None, None
     try:
         again = real.S.setup_config("restart.toml", "restart.toml")
     except Exception as e:  # noqa: BLE001
         return err_kind(e), None, None, None
     if again is None:
         return "none", None, None, None
-    b, a = canon(strip_restart(before)), canon(strip_restart(again))
+    try:
+        b, a = canon(strip_restart(before)), canon(strip_restart(again))
+    except Exception as e:  # noqa: BLE001
+        return "malformed-config:" + err_kind(e), None, None, None
     stage = "setup_internal"
     try:
         md_items, st2 = real.setup_internal(again)
@@ -627,8 +771,43 @@ def gen_cases(ctx):
         prof = rng.choice(list(ENGINE_PROFILES) + ["plain"] * 6)
         cases.append(mkcase(intf, w, mv, cap=cap, lm1=lm1, quantis=q, ee=ee, engines=engine_tables(sub, prof),
                             seed=rng.choice((None, None, 0, 3)), acc=rng.choice((None, None, 0, 1))))
+    # F. options check_config does not look at, at their falsy / boundary values, on valid configurations
+    #    (steps 0 / < workers / == workers, seed 0, maxlength 0, n_jumps 0, screen 0/1/3, pattern, delete_old),
+    #    workers at 0 and at the maximum n-1, with and without cap / λ₋₁ (0.0 included) / quantis
+    nF = 0
+    bases = [dict(intf=(0, 2, 4), cap=None, lm1="A"), dict(intf=(-2, 0, 2, 4), cap=4, lm1=-3),
+             dict(intf=(0, 2), cap=None, lm1="F"), dict(intf=(2, 4, 5), cap=3, lm1=0)]
+    optsets = [()]
+    for key, vals in (("steps", (0, 1, 2, 3)), ("maxlength", (0, 1)), ("n_jumps", (0,)), ("screen", (1, 3)),
+                      ("pattern", (1,)), ("delete_old", (1,))):
+        optsets += [((key, v),) for v in vals]
+    optsets += [(("steps", 0), ("screen", 1)), (("steps", 1), ("screen", 3), ("pattern", 1)),
+                (("maxlength", 0), ("n_jumps", 0), ("delete_old", 1))]
+    for b in bases:
+        n = len(b["intf"])
+        for w in (0, 1, n - 1):
+            for o in optsets:
+                if w == 0 and dict(o).get("pattern"):
+                    # unchanged code: output.pattern with workers = 0 makes setup_internal raise TypeError in
+                    # pattern_header (reported to the coordinator as a witness; not generated)
+                    continue
+                for sd in (None, 0, 7):
+                    for q in (None, 1):
+                        if q and b["lm1"] not in ("A", "F", 0):
+                            continue
+                        mv = (0, 1) + (0,) * (n - 2) if b["cap"] is not None else (0,) * n
+                        cases.append(mkcase(b["intf"], w, mv, cap=b["cap"], lm1=b["lm1"], quantis=q, seed=sd, opts=o))
+                        nF += 1
+    # G. engine names that collide with the non-engine sections (outside the model's assumption: not compared
+    #    with the model, only judged and recorded)
+    nG = 0
+    for name in NON_ENGINE_SECTIONS:
+        for ee in ((( name,), ("engine",)), (("engine",), (name,)), (("engine", name), ("engine",))):
+            cases.append(mkcase((0, 2), 1, (0, 0), ee=ee, engines=(("engine", 1, None, 7),), opts=(("nomodel", 1),)))
+            nG += 1
     ctx.extra["case_blocks"] = {"A_intf_x_cap_x_moves": nA, "B_intf_x_lm1_x_quantis": nB, "C_intf_x_workers": nC,
-                                "D_ensemble_engines_x_tables_x_quantis": nD, "E_random_mix": nE}
+                                "D_ensemble_engines_x_tables_x_quantis": nD, "E_random_mix": nE, "F_options_falsy_and_boundary": nF,
+                                "G_engine_names_colliding_with_sections": nG}
     return cases
 
 
@@ -658,11 +837,30 @@ def fail_once(ctx, sig, what, rep):
         ctx.fail(sig, what, rep)
 
 
-def judge(ctx, real, c, code_setup, cfg, do_init, do_restart, families=(), wcases=None):
+def safe_valid(cfg):
+    """py_valid that cannot raise on an unexpected dict (a changed setup_config may return anything)"""
+    try:
+        return py_valid(cfg)
+    except Exception as e:  # noqa: BLE001
+        return ["malformed-config:" + err_kind(e)]
+
+
+def judge(ctx, real, c, code_setup, cfg, do_init, do_restart, families=(), wcases=None, d_in=None, icases=None):
     """property predicate on the real outcome of one case; returns the branch name"""
     obj = case_obj(c)
+    if code_setup.startswith("malformed-config"):
+        fail_once(ctx, "C18:setup_config-returns-malformed-config",
+                  f"setup_config returned something that is not a normalised configuration ({code_setup})",
+                  {"case": obj, "code": code_setup})
+        return "malformed"
     if cfg is not None:
-        bad = py_valid(cfg)
+        bad = safe_valid(cfg)
+        if d_in is not None:
+            chg = settings_changed(d_in, cfg)
+            if chg:
+                fail_once(ctx, "C18:setup_config-changes-settings",
+                          "setup_config may only fill in absent defaults, [current] and output.data_file/pattern_file; "
+                          f"it also changed: {'; '.join(chg[:4])}", {"case": obj, "changed": chg[:8]})
         if bad:
             hole = next((b for b in ("cap-zero-skipped", "cap-below-wf-interface") if b in bad), bad[0])
             fail_once(ctx, f"C18:{hole}", f"setup_config accepted a configuration violating: {', '.join(bad)}",
@@ -678,6 +876,41 @@ def judge(ctx, real, c, code_setup, cfg, do_init, do_restart, families=(), wcase
                     st, err = fst, ferr
                 if bad:
                     continue
+                if fst is not None and stage not in ("REPEX_state", "initiate_ensembles"):
+                    ebad = None
+                    try:
+                        ebad = ensembles_spec_violations(cfg, fst)
+                        shown = show_ensembles(fst)
+                    except Exception as e:  # noqa: BLE001
+                        ebad = ["ensembles unreadable: " + err_kind(e)]
+                        shown = None
+                    if ebad:
+                        fail_once(ctx, "C18:ensembles-wrong",
+                                  f"initiate_ensembles on an accepted configuration: {ebad[0]}",
+                                  {"case": obj, "violations": ebad[:5], "initial_paths": fam})
+                    elif icases is not None and fam == "on-own":
+                        icases.append((obj, to_line("init", c), shown))
+                # two states alive at once: creating this one must not have changed the previous one
+                if fam == "on-own" and ferr is None and fst is not None:
+                    prev = ctx.extra.get("_prev_state")
+                    try:
+                        if prev is not None:
+                            pst, psnap, pobj = prev
+                            if pst.config is fst.config or pst.ensembles is fst.ensembles or pst.state is fst.state:
+                                fail_once(ctx, "C18:state-leak:two-states-share-an-object",
+                                          "two REPEX_state objects built from two configurations share config / "
+                                          "ensembles / state", {"case": obj, "previous_case": pobj})
+                            elif state_snapshot(pst) != psnap:
+                                fail_once(ctx, "C18:state-leak:second-state-changes-first",
+                                          "initialising a second configuration changed the state built from the first",
+                                          {"case": obj, "previous_case": pobj})
+                        ctx.extra.pop("_prev_state", None)
+                    except Exception as e:  # noqa: BLE001
+                        if type(e).__name__ == "Timeout":
+                            raise
+                        fail_once(ctx, "C18:state-leak:state-unreadable",
+                                  f"snapshot of an initialised state raises {err_kind(e)}", {"case": obj})
+                        ctx.extra.pop("_prev_state", None)
                 rep = {"case": obj, "stage": stage, "error": ferr, "initial_paths": fam,
                        "orders": orders}
                 if ferr is not None:
@@ -711,10 +944,20 @@ def judge(ctx, real, c, code_setup, cfg, do_init, do_restart, families=(), wcase
                               {"case": obj, "error": ierr, "route": "restart"})
                 else:
                     ctx.hit("restart-roundtrip:initialised-again")
+            if err is None and st is not None and not bad:
+                # kept alive (and photographed now, after write_toml updated its [current]) for the next case
+                try:
+                    ctx.extra["_prev_state"] = (st, state_snapshot(st), obj)
+                except Exception:  # noqa: BLE001
+                    ctx.extra.pop("_prev_state", None)
         return "accepted-invalid" if bad else "accepted"
     # rejected
     d = py_normalised(to_dict(c, real.tmp))
     bad = py_valid(d)
+    if code_setup == "none":
+        fail_once(ctx, "C18:fresh-start-returns-none", "setup_config returned None for an existing fresh input file",
+                  {"case": obj})
+        return "none"
     if bad and code_setup != "err:config":
         holes = [b for b in bad if b in ("cap-zero-skipped", "cap-below-wf-interface")]
         if holes and len(holes) == len(bad):
@@ -734,7 +977,7 @@ def judge(ctx, real, c, code_setup, cfg, do_init, do_restart, families=(), wcase
     return "invalid-rejected"
 
 
-def judge_restart(ctx, real, c, variant, two_files, code, cfg):
+def judge_restart(ctx, real, c, variant, two_files, code, cfg, d_in=None):
     """property predicate on the real outcome of the restart route"""
     obj = case_obj(c)
     rep = {"case": obj, "route": "restart", "variant": variant, "two_files": two_files}
@@ -742,8 +985,17 @@ def judge_restart(ctx, real, c, variant, two_files, code, cfg):
         fail_once(ctx, "C18:restart-route:restart-file-ignored",
                   "setup_config(input, restart) with equal settings did not take the restart branch", rep)
         return "restart:ignored"
+    if code.startswith("malformed-config"):
+        fail_once(ctx, "C18:restart-route:setup_config-returns-malformed-config",
+                  f"setup_config(restart file) returned something that is not a normalised configuration ({code})", rep)
+        return "restart:malformed"
     if cfg is not None:
-        bad = py_valid(cfg)
+        bad = safe_valid(cfg)
+        if d_in is not None:
+            chg = settings_changed(d_in, cfg, restart=True)
+            if chg:
+                fail_once(ctx, "C18:restart-route:setup_config-changes-settings",
+                          f"on the restart branch setup_config changed: {'; '.join(chg[:4])}", dict(rep, changed=chg[:8]))
         if bad:
             fail_once(ctx, f"C18:restart-route:{bad[0]}",
                       f"setup_config accepted a restart file whose configuration violates: {', '.join(bad)}",
@@ -769,6 +1021,17 @@ def invalid_class(c, code_setup, real):
     except Exception:  # noqa: BLE001
         bad = ("?",)
     return bad, code_setup.split(" ")[0]
+
+
+def safe_driver(ctx, lines):
+    """the Lean driver; a failure of the driver is a broken correspondence, not a crash of the harness"""
+    try:
+        return ctx.driver(lines)
+    except Exception as e:  # noqa: BLE001
+        if type(e).__name__ == "Timeout":
+            raise
+        ctx.disagree({"fn": "Lean driver", "requests": len(lines)}, "-", f"driver failed: {e}"[:300])
+        return ["driver-failed"] * len(lines)
 
 
 def run(ctx):
@@ -802,7 +1065,7 @@ def _run(ctx, real):
                                     % ((3, 3) if ctx.quick else (4, 4)))
     have_model = ctx._driver_ok
     if have_model:
-        out = ctx.driver([to_line("all", c) for c in cases])
+        out = safe_driver(ctx, [to_line("all", c) for c in cases])
     problem = real.make_base_restart()
     if problem is not None:
         why = "boundary-initial-path" if problem[0] == "load_paths" else problem[0]
@@ -819,54 +1082,116 @@ def _run(ctx, real):
     variants = list(RESTART_VARIANTS)
     init_budget = 8000 if ctx.quick else 40000
     restart_budget = 150 if ctx.quick else 1500
-    for k, c in enumerate(cases):
+    icases = []
+    model_rows = {}
+    if have_model:
+        for k in range(len(cases)):
+            try:
+                model_rows[k] = out[k].split(" | ")
+                assert len(model_rows[k]) == 3
+            except Exception:  # noqa: BLE001
+                model_rows[k] = None
+    st_ = {"n_init": 0, "n_restart": 0}
+
+    def one_case(k, c):
+        stage = "build-input"
         d = to_dict(c, real.tmp)
-        code_check = real.check(d)
+        nomodel = bool(opts_of(c).get("nomodel"))
+        stage = "check_config"
+        code_check, pure = real.check(d)
+        if not pure:
+            fail_once(ctx, "C18:check_config-modifies-config",
+                      "check_config changed the configuration dictionary it was asked to check",
+                      {"case": case_obj(c), "outcome": code_check})
+        stage = "setup_config"
         code_setup, cfg = real.setup(d)
-        if have_model:
-            m_check, m_setup, m_valid = out[k].split(" | ")
+        if cfg is None and k % 8 == 0:
+            again, _ = real.setup(d)
+            if again != code_setup:
+                fail_once(ctx, "C18:rejection-not-repeatable",
+                          f"the same input file gives {code_setup} and then {again}", {"case": case_obj(c)})
+        stage = "model-comparison"
+        if have_model and not nomodel and model_rows.get(k) is not None:
+            m_check, m_setup, m_valid = model_rows[k]
             if code_check != m_check:
                 ctx.disagree({"fn": "check_config(raw dict)", "case": case_obj(c)}, code_check, m_check)
             if code_setup != m_setup:
                 ctx.disagree({"fn": "setup_config", "case": case_obj(c)}, code_setup, m_setup)
             if cfg is not None:
-                pv = "0" if py_valid(cfg) else "1"
+                pv = "0" if safe_valid(cfg) else "1"
                 if pv != m_valid:
                     ctx.disagree({"fn": "Valid: py_valid(real normalised config) vs Lean validB", "case": case_obj(c)},
                                  pv, m_valid)
-        interesting = cfg is not None and (c[3] is not None or k < len(WITNESSES) or c[6] is not None)
-        do_init = cfg is not None and n_init < init_budget
-        do_restart = do_init and n_restart < restart_budget and (k % 7 == 0 or k < len(WITNESSES))
+        elif have_model and not nomodel:
+            ctx.disagree({"fn": "driver answer unreadable", "case": case_obj(c)}, code_setup, str(out[k])[:200])
+        if nomodel:
+            # engine names colliding with non-engine sections: outside the model's assumption and outside the
+            # property's list as py_valid states it; what the code does is recorded, both routes
+            rd = restart_dict(real, c, "go")
+            rcode, _ = real.setup_restart(rd, False)
+            names = sorted({e for x in c[6] for e in x if e in NON_ENGINE_SECTIONS})
+            ctx.hit(f"collision:{'+'.join(names)}:fresh={code_setup.split(' ')[0]}:restart={rcode.split(' ')[0]}")
+            ctx.count(1, branch="collision", outcome=code_setup.split(" ")[0])
+            return stage
+        stage = "judge"
+        do_init = cfg is not None and st_["n_init"] < init_budget
+        do_restart = do_init and st_["n_restart"] < restart_budget and (k % 7 == 0 or k < len(WITNESSES))
         if do_init:
-            n_init += 1
-        fams = FAMILIES if (not ctx.quick or k < len(WITNESSES)) else (FAMILIES[1 + n_init % (len(FAMILIES) - 1)],)
-        branch = judge(ctx, real, c, code_setup, cfg, do_init, do_restart, fams, wcases)
+            st_["n_init"] += 1
+        fams = FAMILIES if (not ctx.quick or k < len(WITNESSES)) else (FAMILIES[1 + st_["n_init"] % (len(FAMILIES) - 1)],)
+        branch = judge(ctx, real, c, code_setup, cfg, do_init, do_restart, fams, wcases, d,
+                       None if nomodel else icases)
         if do_restart and cfg is not None:
-            n_restart += 1
+            st_["n_restart"] += 1
         # ---- the same case through the restart route: every class at least `per_class` times, and a fixed
         # fraction of all cases (all of them in the thorough tier)
+        stage = "restart-route"
         cls = invalid_class(c, code_setup, real)
         class_seen[cls] = class_seen.get(cls, 0) + 1
         if k < len(WITNESSES) or class_seen[cls] <= per_class or not ctx.quick or k % 6 == 0:
             variant = "go" if (k % 9) else variants[(k // 9) % len(variants)]
             two_files = (k % 13 == 5)
-            rcode, rcfg = real.setup_restart(restart_dict(real, c, variant), two_files)
-            rbranch = judge_restart(ctx, real, c, variant, two_files, rcode, rcfg)
+            rd = restart_dict(real, c, variant)
+            rcode, rcfg = real.setup_restart(rd, two_files)
+            rbranch = judge_restart(ctx, real, c, variant, two_files, rcode, rcfg, rd)
             ctx.count(1, branch=rbranch, restart_variant=variant)
-            rcases.append((k, variant, two_files, rcode))
+            if not nomodel:
+                rcases.append((k, variant, two_files, rcode))
         ctx.count(1, branch=branch, outcome=code_setup.split(" ")[0])
         if not (cfg is not None and c[3] is None and c[4] == "A" and c[5] is None and c[6] is None):
             ctx.distinct(c)
         if k < 3 or k % 20011 == 0:
             ctx.sample({"case": case_obj(c), "setup_config": code_setup, "check_config_raw": code_check})
+        return stage
+
+    for k, c in enumerate(cases):
+        try:
+            one_case(k, c)
+        except Exception as e:  # noqa: BLE001
+            if type(e).__name__ == "Timeout":
+                raise
+            # last resort: whatever slipped through the stage guards is reported as a failing input, never as a
+            # crash of the harness
+            import traceback
+            where = traceback.extract_tb(e.__traceback__)[-1]
+            fail_once(ctx, f"C18:unexpected-exception:{type(e).__name__}",
+                      f"evaluating this case raised {type(e).__name__}: {e} (at {where.name}:{where.lineno})",
+                      {"case": case_obj(c)})
+    n_init, n_restart = st_["n_init"], st_["n_restart"]
     if have_model and rcases:
-        rout = ctx.driver([restart_line(cases[k], variant) for (k, variant, _, _) in rcases])
+        rout = safe_driver(ctx, [restart_line(cases[k], variant) for (k, variant, _, _) in rcases])
         for (k, variant, two_files, rcode), m in zip(rcases, rout):
             if rcode != m:
                 ctx.disagree({"fn": "setup_config(restart file)", "variant": variant, "two_files": two_files,
                               "case": case_obj(cases[k])}, rcode, m)
+    if have_model and icases:
+        iout = safe_driver(ctx, [line for (_, line, _) in icases])
+        for (obj, line, shown), m in zip(icases, iout):
+            if shown != m:
+                ctx.disagree({"fn": "initiate_ensembles vs Infretis.Config.initEnsembles", "case": obj}, shown, m)
+    ctx.extra["ensemble_tables_compared"] = ctx.extra.get("ensemble_tables_compared", 0) + len(icases)
     if have_model and wcases:
-        wout = ctx.driver([line for (_, _, _, line, _) in wcases])
+        wout = safe_driver(ctx, [line for (_, _, _, line, _) in wcases])
         for (obj, fam, i, line, w), m in zip(wcases, wout):
             code_row = lst([int(x) if float(x) == int(x) else x for x in w])
             if code_row != m:
@@ -876,6 +1201,7 @@ def _run(ctx, real):
     ctx.extra["restart_route_cases"] = ctx.extra.get("restart_route_cases", 0) + len(rcases)
     ctx.extra["restart_route_classes"] = len(class_seen)
     ctx.extra.pop("_sigs", None)
+    ctx.extra.pop("_prev_state", None)
     ctx.extra["initialised_for_real"] = n_init
     ctx.extra["restart_roundtrips"] = n_restart
     for a in [
